@@ -35,6 +35,7 @@ package remote
 //@ func (rs *regionSet) add
 //@   props C06,C04
 //@   modifies rs.rs, heap("E:fs/remote.region")
+//@   loop 0 invariant[C06,C04] -1 <= i && i < len(rs.rs)
 //@   ensures[C06] len(rs.rs) >= 1
 //@ func superRegion
 //@   props C06,C04
